@@ -539,10 +539,114 @@ pub fn run(ctx: &Ctx) -> Report {
         }
     }
 
+    // (6) query-string authentication on a folded request: the body's parameters come AFTER the URL's, also for the
+    //     X-Amz-* parameters of which the first value counts. Each of them is given a second, different value in the
+    //     body — the good one in the URL and a bad one in the body (accepted), or the bad one in the URL and the good
+    //     one in the body (refused) — with 0..10 further body parameters and 0, 2 or 6 further URL parameters (so
+    //     that either side has more names than the other), with and without a session token.
+    {
+        let which = ["X-Amz-Credential", "X-Amz-Date", "X-Amz-SignedHeaders", "X-Amz-Security-Token", "X-Amz-Signature", "X-Amz-Algorithm"];
+        let n6 = (which.len() * 2 * 11 * 3 * 2) as u64;
+        let base6 = base3 + n3 + 5_000_000;
+        let prov = ProvSpec::Derive(vec![(e2e::ACCESS_KEY.to_string(), e2e::SECRET.to_string()), ("AKIDOTHER".to_string(), e2e::SECRET2.to_string())]);
+        let st6 = par_sweep(n6, |i, st| {
+            let mut x = i as usize;
+            let with_token = x % 2 == 1;
+            x /= 2;
+            let n_url = [0usize, 2, 6][x % 3];
+            x /= 3;
+            let n_extra = x % 11;
+            x /= 11;
+            let good_in_url = x % 2 == 0;
+            x /= 2;
+            let w = which[x];
+            if w == "X-Amz-Security-Token" && !with_token {
+                return;
+            }
+            let mut plan = e2e::base_plan(Carrier::Query);
+            plan.method = "POST".into();
+            plan.headers.push(("Content-Type".into(), b"application/x-www-form-urlencoded".to_vec()));
+            plan.signed = vec!["host".into()];
+            if with_token {
+                plan.token = Some("GOODTOKEN".into());
+            }
+            plan.url_params = (0..n_url).map(|k| (format!("u{}", k).into_bytes(), b"1".to_vec())).collect();
+            let credential = format!("{}/{}", plan.access_key, plan.scope);
+            let stale = refmodel::Instant::new(plan.instant.secs - 86_400, 0);
+            let good: Vec<(Vec<u8>, Vec<u8>)> = {
+                let mut v = vec![
+                    (b"X-Amz-Algorithm".to_vec(), b"AWS4-HMAC-SHA256".to_vec()),
+                    (b"X-Amz-Credential".to_vec(), credential.clone().into_bytes()),
+                    (b"X-Amz-Date".to_vec(), plan.date_text.clone().into_bytes()),
+                    (b"X-Amz-SignedHeaders".to_vec(), b"host".to_vec()),
+                ];
+                if with_token {
+                    v.push((b"X-Amz-Security-Token".to_vec(), b"GOODTOKEN".to_vec()));
+                }
+                v
+            };
+            let bad_value: Vec<u8> = match w {
+                "X-Amz-Credential" => format!("AKIDOTHER/{}", plan.scope).into_bytes(),
+                "X-Amz-Date" => stale.compact().into_bytes(),
+                "X-Amz-SignedHeaders" => b"content-type;host".to_vec(),
+                "X-Amz-Security-Token" => b"OTHERTOKEN".to_vec(),
+                "X-Amz-Algorithm" => b"AWS4-HMAC-SHA512".to_vec(),
+                _ => vec![b'0'; 64],
+            };
+            let good_value: Option<Vec<u8>> = good.iter().find(|(k, _)| k == w.as_bytes()).map(|(_, v)| v.clone());
+            let mut body_params: Vec<(Vec<u8>, Vec<u8>)> = (0..n_extra).map(|k| (format!("p{}", k).into_bytes(), b"2".to_vec())).collect();
+            let mut url_auth = good.clone();
+            if w != "X-Amz-Signature" {
+                if good_in_url {
+                    body_params.insert(n_extra / 2, (w.as_bytes().to_vec(), bad_value.clone()));
+                } else {
+                    for e in url_auth.iter_mut() {
+                        if e.0 == w.as_bytes() {
+                            e.1 = bad_value.clone();
+                        }
+                    }
+                    body_params.insert(n_extra / 2, (w.as_bytes().to_vec(), good_value.clone().unwrap_or_default()));
+                }
+            }
+            plan.query_auth_override = Some(url_auth);
+            plan.body = refmodel::sign::spell_query(&body_params).into_bytes();
+            plan.body_params = Some(body_params);
+            let built = build(&plan);
+            let mut wire = WireReq::from_wire(&built.wire);
+            if w == "X-Amz-Signature" {
+                let sig = built.signed.signature.clone();
+                let zeros = "0".repeat(64);
+                let sep = if wire.body.is_empty() { "" } else { "&" };
+                if good_in_url {
+                    wire.body.extend_from_slice(format!("{}X-Amz-Signature={}", sep, zeros).as_bytes());
+                } else {
+                    wire.uri = wire.uri.replace(&sig, &zeros);
+                    wire.body.extend_from_slice(format!("{}X-Amz-Signature={}", sep, sig).as_bytes());
+                }
+            }
+            let mut cfg = Cfg::basic(e2e::base_instant());
+            cfg.fold = true;
+            let case = Case { wire, cfg, prov: prov.clone() };
+            let before = st.violations.len();
+            let j = e2e::judge_into(base6 + i as u64, &case, st);
+            if st.violations.len() > before {
+                if let Some(v) = st.violations.last_mut() {
+                    v.what = format!("url-before-body({} {} with {} other body and {} other URL parameters):{}", w, if good_in_url { "good in the URL, bad in the body" } else { "bad in the URL, good in the body" }, n_extra, n_url, v.what);
+                }
+            }
+            if !j.unspecified && j.reference.accepted() != good_in_url && w != "X-Amz-Security-Token" {
+                crate::core::machinery_error(&format!("C12 (6) {} good_in_url={}: reference says {:?}", w, good_in_url, j.reference.error));
+            }
+            st.state(&(w, good_in_url, j.reference.accepted(), "url-before-body"));
+            st.nontrivial(&(w, good_in_url, n_extra, n_url, with_token, "url-before-body"));
+        });
+        st = st.merge(st6);
+    }
+
     Report {
         stats: st,
         rule: format!(
-            "(1) every URL parameter list x every body parameter list, each of 0..2 (thorough: 0..3) pairs over names {{a,b}} x values {{1,2,empty}} (all same-name-in-both patterns) x {} content-type spellings (absent, exact, charset utf-8/UTF-8/utf8, extra parameter, valueless charset, iso-8859-1, bogus, case variant, longer type, text/plain, json, two headers in both orders, padded) x {{fold off, fold on, fold on + S3}} x carrier; each case signed two ways — F (body parameters as if appended to the URL, payload = empty) and V (URL only, payload = body) — and both judged by the reference verifier; returned body / URI compared with the statement; F and V never both accepted unless identical; (2) 133 undecodable bodies and 3 unknown charset labels x 3 bodies => InvalidBodyEncoding/400 with the provider untouched, each followed on the same thread by a correctly signed folded request that must be accepted; (3) where folding does not apply — under {{default, S3, fold, S3+fold}}, with no / a signed / an unsigned X-Amz-Content-Sha256 header carrying the digest of the signed body, or UNSIGNED-PAYLOAD — every single-bit flip of every body byte (4 bodies incl. all 256 byte values), an append, a truncation, a replacement and an emptied body are refused, and the unchanged request (also the folded one, whose declared digest is not that of an empty body) is accepted; (5) 27 form bodies of 65 kB .. 200 kB whose parameters are small (percent-escaped unreserved characters, runs of '&', 4000 tiny parameters) are folded and accepted on both carriers. states = distinct reference canonical requests",
+            "(1) every URL parameter list x every body parameter list, each of 0..2 (thorough: 0..3) pairs over names {{a,b}} x values {{1,2,empty}} (all same-name-in-both patterns) x {} content-type spellings (absent, exact, charset utf-8/UTF-8/utf8, extra parameter, valueless charset, iso-8859-1, bogus, case variant, longer type, text/plain, json, two headers in both orders, padded) x {{fold off, fold on, fold on + S3}} x carrier; each case signed two ways — F (body parameters as if appended to the URL, payload = empty) and V (URL only, payload = body) — and both judged by the reference verifier; returned body / URI compared with the statement; F and V never both accepted unless identical; (2) 133 undecodable bodies and 3 unknown charset labels x 3 bodies => InvalidBodyEncoding/400 with the provider untouched, each followed on the same thread by a correctly signed folded request that must be accepted; (3) where folding does not apply — under {{default, S3, fold, S3+fold}}, with no / a signed / an unsigned X-Amz-Content-Sha256 header carrying the digest of the signed body, or UNSIGNED-PAYLOAD — every single-bit flip of every body byte (4 bodies incl. all 256 byte values), an append, a truncation, a replacement and an emptied body are refused, and the unchanged request (also the folded one, whose declared digest is not that of an empty body) is accepted; (5) 27 form bodies of 65 kB .. 200 kB whose parameters are small (percent-escaped unreserved characters, runs of '&', 4000 tiny parameters) are folded and accepted on both carriers; (6) presigned (query-string) folded requests in which one of X-Amz-Credential / -Date / -SignedHeaders / -Security-Token / -Signature / -Algorithm has a second, different value in the body — good in the URL and bad in the body, or the reverse — x 0..10 other body parameters x 0 / 2 / 6 other URL parameters x token: the URL's value counts (body parameters come after the URL's). states = distinct reference canonical requests",
             n_ct
         ),
         bounds: json!({"url_lists": n_lists, "body_lists": n_lists, "content_types": n_ct, "bit_flip_cases": n3}),
